@@ -559,10 +559,18 @@ def same_blob_var(b1, b2):
 def canon(c, ctx):
     """Normalise using facts the path condition entails: drop provably empty segments and merge
     blob slices that are provably adjacent."""
-    if ctx is None or not any(isinstance(s, (BlobSeg, Fill)) for s in c.segs):
+    if ctx is None or not any(isinstance(s, (BlobSeg, Fill)) or (isinstance(s, Atom) and s.kind == "dec") for s in c.segs):
         return c
     out = []
     for s in c.segs:
+        if isinstance(s, Atom) and s.kind == "dec" and is_sym(s.payload[0]):
+            # a decimal atom whose value the path condition pins down is just digits
+            m = ctx.model()
+            if m is not None:
+                v = m.eval(s.payload[0], model_completion=True).as_long()
+                if ctx.known(s.payload[0] == v):
+                    out.append(str(v).encode())
+                    continue
         if isinstance(s, BlobSeg):
             if not _same_term(s.a, s.b) and (is_sym(s.a) or is_sym(s.b)) and ctx.known(_bv(s.a) == _bv(s.b)):
                 continue
